@@ -21,10 +21,16 @@ type c14Shape struct {
 	accept  bool
 	why     string
 	regexAt string // where arg:context:regex is written for shapes with R: conv | meth
+	// variadic: the last parameter (a context) is declared as ...T; the implementation must keep the declared signature
+	variadic bool
 }
 
 func (s c14Shape) key() string {
-	return fmt.Sprintf("%s|named=%v|%s|%s|regex@%s", s.use, s.named, strings.Join(s.roles, ""), s.results, s.regexAt)
+	k := fmt.Sprintf("%s|named=%v|%s|%s|regex@%s", s.use, s.named, strings.Join(s.roles, ""), s.results, s.regexAt)
+	if s.variadic {
+		k += "|variadic"
+	}
+	return k
 }
 
 func countRole(roles []string, set string) int {
@@ -136,15 +142,25 @@ func c14MethodCase(name string, s c14Shape) *pgen.Case {
 			callArgs = append(callArgs, fmt.Sprintf("a%d", i))
 			srcVar = fmt.Sprintf("a%d", i)
 		case "C":
-			fmt.Fprintf(&sb, "type CtxP%d struct{ ID string }\n// goverter:context c\nfunc F%d(v int, c CtxP%d) string { return fmt.Sprintf(\"%%d/%%s\", v, c.ID) }\n", i, i, i)
-			params = append(params, fmt.Sprintf("cx%d CtxP%d", i, i))
+			if s.variadic && i == len(s.roles)-1 {
+				fmt.Fprintf(&sb, "type CtxP%d struct{ ID string }\n// goverter:context c\nfunc F%d(v int, c []CtxP%d) string { return fmt.Sprintf(\"%%d/%%s\", v, c[0].ID) }\n", i, i, i)
+				params = append(params, fmt.Sprintf("cx%d ...CtxP%d", i, i))
+			} else {
+				fmt.Fprintf(&sb, "type CtxP%d struct{ ID string }\n// goverter:context c\nfunc F%d(v int, c CtxP%d) string { return fmt.Sprintf(\"%%d/%%s\", v, c.ID) }\n", i, i, i)
+				params = append(params, fmt.Sprintf("cx%d CtxP%d", i, i))
+			}
 			mlines = append(mlines, fmt.Sprintf("context cx%d", i), fmt.Sprintf("map V X%d | F%d", i, i))
 			setup = append(setup, fmt.Sprintf("a%d := p.CtxP%d{ID: \"ctx%d\"}", i, i, i))
 			callArgs = append(callArgs, fmt.Sprintf("a%d", i))
 			expect = append(expect, fmt.Sprintf("out.X%d == fmt.Sprintf(\"%%d/ctx%d\", SRC.V)", i, i))
 		case "R":
-			fmt.Fprintf(&sb, "type RxP%d struct{ ID string }\nfunc F%d(v int, rxc RxP%d) string { return fmt.Sprintf(\"%%d/%%s\", v, rxc.ID) }\n", i, i, i)
-			params = append(params, fmt.Sprintf("rx%d RxP%d", i, i))
+			if s.variadic && i == len(s.roles)-1 {
+				fmt.Fprintf(&sb, "type RxP%d struct{ ID string }\nfunc F%d(v int, rxc []RxP%d) string { return fmt.Sprintf(\"%%d/%%s\", v, rxc[0].ID) }\n", i, i, i)
+				params = append(params, fmt.Sprintf("rx%d ...RxP%d", i, i))
+			} else {
+				fmt.Fprintf(&sb, "type RxP%d struct{ ID string }\nfunc F%d(v int, rxc RxP%d) string { return fmt.Sprintf(\"%%d/%%s\", v, rxc.ID) }\n", i, i, i)
+				params = append(params, fmt.Sprintf("rx%d RxP%d", i, i))
+			}
 			mlines = append(mlines, fmt.Sprintf("map V X%d | F%d", i, i))
 			setup = append(setup, fmt.Sprintf("a%d := p.RxP%d{ID: \"rx%d\"}", i, i, i))
 			callArgs = append(callArgs, fmt.Sprintf("a%d", i))
@@ -410,13 +426,22 @@ func C14(e *core.Env) int {
 	}
 	shapes = append(shapes, c14Shapes("extendrx", []string{"S", "C", "R"}, []string{"T", "T,error"}, 3, false)...)
 	shapes = append(shapes, c14Shapes("structmethod", []string{"C"}, funcRes, 2, true)...)
+	// variadic last parameter in a context role (accepted method shapes only)
+	for _, s := range append([]c14Shape{}, shapes...) {
+		if (s.use == "iface" || s.use == "vars") && s.accept && s.named && len(s.roles) > 0 && strings.Contains("CR", s.roles[len(s.roles)-1]) {
+			v := s
+			v.roles = append([]string{}, s.roles...)
+			v.variadic = true
+			shapes = append(shapes, v)
+		}
+	}
 	total := len(shapes)
 	if e.Tier != "thorough" {
 		// quick: seeded sample that keeps every accepted shape with probability 1/2 and rejected ones with 1/5
 		r := rand.New(rand.NewSource(e.Seed*31 + 14))
 		var sel []c14Shape
 		for _, s := range shapes {
-			small := s.use == "structmethod" || s.use == "extendrx" // small families are always complete
+			small := s.use == "structmethod" || s.use == "extendrx" || s.variadic // small families are always complete
 			if small || (s.accept && r.Intn(2) == 0) || (!s.accept && r.Intn(6) == 0) {
 				sel = append(sel, s)
 			}
